@@ -47,7 +47,7 @@ def spline_strat(rng, S, ext, L, trailing):
 
 def generate(rng, tier):
     cases = []
-    reps = 350 if tier == "quick" else 9000
+    reps = gen.N(tier, 350, 9000)
     for _ in range(reps):
         S = "Q" if rng.random() < 0.75 else "F"
         kind = rng.choice(["lin", "bil", "spl"])
@@ -104,7 +104,7 @@ def oracle(case, res):
 
 def extra(rng, tier):
     fails, lines, checks = [], [], []
-    reps = 60 if tier == "quick" else 1500
+    reps = gen.N(tier, 60, 1500)
     # (a) spline: outside value = end cubic recovered from 4 in-range samples
     for _ in range(reps):
         shape, xs, flat = gen_1d(rng, "Q", True)
